@@ -4,7 +4,8 @@
   harness ships `found` (= Exists ∧ Type == String), `Index`, `len(Str)` (unescaped length) and
   `len(Raw)` (the literal as written, with quotes).
   Fixed code: the cut point is computed on the raw literal and never splits an escape sequence
-  (`jsonRawCutPoint`); the cut removes `data[start : Index+len(Raw)-1]`.
+  (`jsonRawCutPoint`); the cut removes `data[start : Index+len(Raw)-1]`; a value with unknown
+  position (`Index == 0`) is skipped; overlapping positions are cut once.
 -/
 import FileD.Model.Dec.Common
 namespace FileD.Dec.JsonCut
@@ -42,7 +43,9 @@ def cutPoint (raw : Bytes) (limit : Int) : GoM Int := cutPointLoop raw limit (ra
 
 /-- `findPos`: `some (start, end)` (end inclusive) -/
 def findPos (data : Bytes) (p : Probe) : GoM (Option (Int × Int)) :=
-  if !p.found || p.strLen ≤ p.limit then pure none else do
+  if !p.found || p.strLen ≤ p.limit then pure none else
+  -- fixed code: `if v.Index == 0 { return false }` (zero = position unknown, computed value)
+  if p.index = 0 then pure none else do
   let raw ← slice? data p.index (p.index + p.rawLen)     -- v.Raw
   let cp ← cutPoint raw p.limit
   pure (some (p.index + cp, p.index + p.rawLen - 2))
@@ -65,16 +68,27 @@ def insertDesc (x : Int × Int) : List (Int × Int) → List (Int × Int)
   | [] => [x]
   | y :: ys => if y.1 < x.1 then x :: y :: ys else y :: insertDesc x ys
 
-def applyAll : List (Int × Int) → Bytes → GoM Bytes
-  | [], data => pure data
-  | p :: ps, data => do
+/-- the cutting loop over the positions sorted by descending start. Fixed code: a position that
+    does not end before the previous cut starts (`p.end >= prevStart`: two paths resolved to the
+    same value) is skipped. -/
+def applyAll : List (Int × Int) → Int → Bytes → GoM Bytes
+  | [], _, data => pure data
+  | p :: ps, prevStart, data =>
+    if p.2 ≥ prevStart then applyAll ps prevStart data else do
     let data ← applyCut data p
-    applyAll ps data
+    applyAll ps p.1 data
 
 /-- `cutFieldsBySize` (`valid` = `gjson.ValidBytes(data)`) -/
 def cutFields (valid : Bool) (probes : List Probe) (data : Bytes) : GoM Bytes :=
-  if probes.length = 0 || !valid then pure data else do
-  let ps ← collect data probes
-  applyAll (ps.foldr insertDesc []) data
+  if probes.length = 0 || !valid then pure data else
+  if probes.length = 1 then do
+    -- fast way: one configured path, at most one cut, no loop
+    let ps ← collect data probes
+    match ps with
+    | [pos] => applyCut data pos
+    | _ => pure data
+  else do
+    let ps ← collect data probes
+    applyAll (ps.foldr insertDesc []) (data.length + 1) data
 
 end FileD.Dec.JsonCut
